@@ -206,6 +206,32 @@ def gen_writer_program(rng, x, kind="mixed", types=None, nsig=None, twr=False, m
     return {"x": x, "kind": kind, "feat": sorted(feat), "ops": ops}, model
 
 
+def nofsr_writer_program(rng, x, kind, nanno):
+    """A writer session without any FSR signal: sources, annotations on signal 0 (the global annotation track; more
+    than 100 of them build index levels), user data, flushes.  Returns (program, model) like gen_writer_program."""
+    ops = [{"op": "wopen", "twr": False}]
+    for sid in rng.sample([1, 2, 3, 255], rng.randint(0, 2)):
+        ops.append({"op": "source", "id": sid, "name": lit("src%d" % sid), "vendor": None, "model": None, "version": None, "serial": None})
+    ts = 0
+    nud = 0
+    for k in range(nanno):
+        ts += rng.choice([0, 1, 1, 5, 100])
+        stype = rng.choice([1, 1, 2, 3])
+        ops.append({"op": "anno", "sig": 0, "ts": ts, "atype": rng.choice([0, 1, 2, 3]), "group": rng.choice([0, 0, 1, 255]), "stype": stype,
+                    "ybits": rng.choice([0, 0x3f800000]),
+                    "data": ["rep", rng.choice([0, 1, 5, 33, 200]), rng.randint(1, 10 ** 6)] if stype == 1 else lit("a%d" % k)})
+        if rng.random() < 0.15:
+            st = rng.choice([1, 2, 3])
+            ops.append({"op": "userdata", "meta": rng.choice([0, 1, 5, 0x123, 0xfff]), "stype": st,
+                        "data": ["rep", rng.choice([0, 1, 7, 100, 1000]), rng.randint(1, 10 ** 6)] if st == 1 else lit("ud%d" % k)})
+            nud += 1
+        if rng.random() < 0.05:
+            ops.append({"op": "flush"})
+    ops.append({"op": "wclose"})
+    prog = {"x": x, "kind": kind, "feat": ["no-fsr", "anno-sig0"] + (["anno-levels"] if nanno > 100 else []), "ops": ops}
+    return prog, {"sigs": {}, "nud": nud, "anno_ts": ts}
+
+
 def reader_ops(rng, model, nreads=12, stats=False, with_defs=True):
     """A reader session mixing signals and windows aimed at block/byte/entry edges."""
     ops = [{"op": "ropen"}]
@@ -362,7 +388,11 @@ def anno_program(x, adf, tss, seeks, sig=1, base=0, first_off=0, rng=None, paylo
     return {"x": x, "kind": "c11", "feat": ["adf-%d" % adf, "sig0" if sig == 0 else "fsr"], "ops": ops}
 
 
-def utc_program(rng, x, count, udf, rate, base=0, tbase=0, first_off=0, nq=40, equal_times=False):
+# largest |query id - anchor id| for which TLC's 32-bit integers hold the cross-multiplied single-entry test
+SINGLE_ENTRY_REACH = {1000: 15, 48000: 240, 1000000: 120}
+
+
+def utc_program(rng, x, count, udf, rate, base=0, tbase=0, first_off=0, nq=40, equal_times=False, anchor_off=None):
     """UTC entries with increasing ids (spacing <= 64) and increasing times (<= 4096 ticks/step),
     then jls_rd_utc from several ids and id<->time conversions inside, at anchors, before and after."""
     ops = [{"op": "wopen"}, {"op": "source", "id": 1, "name": ["lit", "s"]},
@@ -370,7 +400,7 @@ def utc_program(rng, x, count, udf, rate, base=0, tbase=0, first_off=0, nq=40, e
             "base": base, "tbase": tbase},
            {"op": "fsr", "sig": 1, "id": base + first_off, "n": 64}]
     ids, ts = [], []
-    i, t = first_off + rng.choice([0, 0, 5, -40]), rng.choice([0, 1000, -300])
+    i, t = first_off + (rng.choice([0, 0, 5, -40]) if anchor_off is None else anchor_off), rng.choice([0, 1000, -300])
     tps = {1073741824: 1, 268435456: 4, 16777216: 64, 1048576: 1024, 1000000000: 1}.get(rate, 1)
     for k in range(count):
         ids.append(i)
@@ -391,7 +421,8 @@ def utc_program(rng, x, count, udf, rate, base=0, tbase=0, first_off=0, nq=40, e
             qs = [ids[0] - 30, ids[0] - 1, ids[0], ids[0] + 1, ids[-1] - 1, ids[-1], ids[-1] + 1, ids[-1] + 40]
             qs += [rng.choice(ids) for _ in range(nq // 4)] + [rng.randint(ids[0] - 10, ids[-1] + 10) for _ in range(nq // 2)]
             if count == 1:
-                qs = [ids[0] + d for d in (-300, -7, -1, 0, 1, 9, 250)]
+                reach = SINGLE_ENTRY_REACH.get(rate, 300)
+                qs = [ids[0] + d for d in (-reach, -min(reach, 100), -7, -1, 0, 1, 9, min(reach, 250))]
             for q in qs:
                 ops.append({"op": "i2t", "sig": 1, "id": api(q), "then_t2i": True})
             for tq in [ts[0] - 100, ts[0], ts[-1], ts[-1] + 77] + [rng.choice(ts) for _ in range(nq // 8)] + [rng.randint(ts[0], ts[-1] + 1) for _ in range(nq // 4)]:
